@@ -1071,12 +1071,11 @@ class ExcelCompiler:
                 self.dep_graph.add_edge(
                     self.cell_map[precedent_address.address], dependant)
 
-        # calc the values for ranges
-        try:
-            for range_todo in reversed(self.range_todos):
-                self._evaluate_range(range_todo)
-        finally:
-            self.range_todos = []
+        # calc the values for ranges, evaluating can come back here to build
+        # more of the graph, which is not to start on these ranges again
+        range_todos, self.range_todos = self.range_todos, []
+        for range_todo in reversed(range_todos):
+            self._evaluate_range(range_todo)
 
         self.log.info(
             f"Graph construction done, {len(self.dep_graph.nodes())} nodes, "
